@@ -229,6 +229,13 @@ func (c *Config) handleSvcEndpointUpdate(svcName string, added, removed []*servi
 		validAdded = append(validAdded, endpoint)
 	}
 
+	// the endpoint list is known from now on, even when it is empty: otherwise a
+	// later update would be announced as another service-add event, which the
+	// controller ignores for a service that already has a processor.
+	if sw.Endpoints == nil {
+		sw.Endpoints = []*service.Endpoint{}
+	}
+
 	if sw.Config == nil {
 		return
 	}
